@@ -97,3 +97,30 @@ func vrtHarness_C19_garbage() {
 	vrtAssert("entries reported never exceed what the stream could hold", rn <= n)
 	vrtAssert("entries added never exceed what the stream could hold", dst.backend.Len() <= n)
 }
+
+// Large entries: 128..130 entries of about 8 KB each (the size is carried by the key - the
+// message model of the engine is header-only - the block logic sees only the encoded entry
+// size).  A dump that writeDump produced must load again, completely.
+func vrtHarness_C19_bigBlocks() {
+	src := NewCache(&Args{Size: 64 * 1024}, Opts{})
+	now := time.Now()
+	n := 127 + vrtChoice(4)
+	pad := bytes.Repeat([]byte{'x'}, vrtParam("entry_bytes", 8200))
+	keys := make([]string, n)
+	for i := 0; i < n; i++ {
+		keys[i] = string([]byte{'k', byte('0' + i/100), byte('0' + i/10%10), byte('0' + i%10)}) + string(pad)
+		it := &item{resp: vrtHdrMsg(uint16(i), 0), storedTime: now.Add(-time.Minute), expirationTime: now.Add(time.Hour)}
+		src.backend.Store(key(keys[i]), it, now.Add(time.Hour))
+	}
+	var buf bytes.Buffer
+	en, err := src.writeDump(&buf)
+	vrtAssert("dump succeeds and counts the entries", vrtAnd(err == nil, en == n))
+	dst := NewCache(&Args{Size: 64 * 1024}, Opts{})
+	rn, rerr := dst.readDump(bytes.NewReader(buf.Bytes()))
+	vrtCover("large dump loaded", true)
+	vrtAssert("a dump of large entries loads without error and with every entry", vrtAnd(rerr == nil, rn == n, dst.backend.Len() == n))
+	for i := 0; i < n; i++ {
+		got, _, ok := dst.backend.Get(key(keys[i]))
+		vrtAssert("every entry reappears with its answer", vrtAnd(ok, ok && got.resp.Id == uint16(i)))
+	}
+}
